@@ -462,7 +462,7 @@ class Normalizer:
         import time as _time
         # the prover is an optimisation of the rules' robustness, never a verdict: a function it cannot normalise within its budget is
         # simply "not proved" (the rules then read the current version)
-        self.deadline = _time.time() + float(os.environ.get('VERIF_EQUIV_BUDGET', '8'))
+        self.deadline = _time.process_time() + float(os.environ.get('VERIF_EQUIV_BUDGET', '20'))     # CPU seconds: independent of the load of the machine
         self.fn = fn
         self.sigdb = sigdb or {}
         self.params = [a.arg for a in fn.args.posonlyargs + fn.args.args + fn.args.kwonlyargs] + \
@@ -818,7 +818,7 @@ class Normalizer:
     # ------------------------------------------------------------------
     def tick(self):
         import time as _time
-        if _time.time() > self.deadline:
+        if _time.process_time() > self.deadline:
             raise ProverTimeout()
 
     def block(self, stmts):
